@@ -68,6 +68,8 @@ func (self Value) slice(s int, e int, desc *thrift.TypeDescriptor) Value {
 }
 
 func searchFieldName(p *thrift.BinaryProtocol, id string, f *thrift.FieldDescriptor) (tt thrift.Type, start int, err error) {
+	// if the field is not found, start tells where the struct begins (a new field can be inserted there)
+	start = p.Read
 	// if _, err := p.ReadStructBegin(); err != nil {
 	// 	return 0, start, wrapError(meta.ErrReadInput, "", err)
 	// }
